@@ -64,8 +64,10 @@ def guards(text):
 def one_section(body):
     """Exactly one acquisition, bound by `let` in the outermost block of `body`, never dropped early."""
     gs = guards(body)
-    return (len(ACQ.findall(body)) == 1 and len(gs) == 1 and gs[0][3] == len(body)
-            and re.search(r"drop\(\s*" + gs[0][0] + r"\s*\)", body) is None)
+    if not (len(ACQ.findall(body)) == 1 and len(gs) == 1 and gs[0][3] == len(body)): return False
+    # an early release is harmless only as the end of the section: nothing after it touches the state
+    m = re.search(r"drop\(\s*" + gs[0][0] + r"\s*\)\s*;", body)
+    return m is None or re.search(r"\b" + gs[0][0] + r"\b|self\.state", body[m.end():]) is None
 
 
 def call_outside_lock(d):
@@ -116,6 +118,20 @@ def lock_facts(reg):
     n_drops = len(re.findall(r"drop\(\s*" + wvar + r"\s*\)", after))
     write_single = len(ACQ.findall(after)) == 1 and n_drops <= (1 if recheck else 0)
     return single, read_single, recheck, write_single, call_outside_lock(d)
+
+
+def poison_recovered(reg):
+    """`read_state`/`write_state` take the guard out of a poisoned lock (a panic while a guard was alive – e.g. in the
+    Drop of a replaced callable – must not wedge the registry).  unwrap/expect/`?` on the lock result = False."""
+    imp = impl_block(reg, r"impl Registry\s*\{")
+    ok = True
+    for fn, meth in (("read_state", "read"), ("write_state", "write")):
+        b = " ".join(fn_body(imp, fn).split())
+        if ("self.state." + meth + "()") not in b: raise ExtractError(f"{fn}: lock call not found")
+        recovers = "into_inner()" in b
+        dangerous = re.search(r"self\.state\." + meth + r"\(\)\s*\.\s*(unwrap\(\)|expect\()", b) is not None
+        ok = ok and recovers and not dangerous
+    return ok
 
 
 def map_sorted():
@@ -180,7 +196,7 @@ def extract():
     single, read_single, recheck, write_single, call_outside = lock_facts(reg)
     shape = shape_facts(reg)
     return {"bodyFormats": body_formats(), "shape": shape, "errorCodes": error_codes(), "registryErrorCode": variant_table(reg), "singleSection": single,
-            "readDispatchSingleSection": read_single, "lookupThenWriteLock": True, "writeSectionSingle": write_single, "callOutsideLock": call_outside,
+            "readDispatchSingleSection": read_single, "lookupThenWriteLock": True, "writeSectionSingle": write_single, "callOutsideLock": call_outside, "poisonRecovered": poison_recovered(reg),
             "recheckUnderWriteLock": recheck, "mapSorted": map_sorted()}
 
 
@@ -204,6 +220,8 @@ def render(f):
          f"def writeSectionSingle : Bool := {lb(f['writeSectionSingle'])}",
          "/-- no callable is invoked while a lock guard is alive -/",
          f"def callOutsideLock : Bool := {lb(f['callOutsideLock'])}",
+         "/-- read_state / write_state recover the guard from a poisoned lock -/",
+         f"def poisonRecovered : Bool := {lb(f['poisonRecovered'])}",
          "/-- the write-lock region looks the function map up again before mutating -/",
          f"def recheckUnderWriteLock : Bool := {lb(f['recheckUnderWriteLock'])}",
          "/-- serde_json is built without `preserve_order`: `Map` is a `BTreeMap` -/",
